@@ -19,6 +19,11 @@ import (
 
 var ErrResetInProgress = errors.New("reset already in progress")
 
+// ErrResetAborted is returned by ResetCids when all keys were written to the
+// alternate datastore but the final swap could not be performed. The keystore
+// keeps serving the previous set of keys.
+var ErrResetAborted = errors.New("reset aborted before swap")
+
 // phaseADrainInterval bounds how long the worker buffer can grow between
 // drains during Phase A when keysChan delivers too slowly to trigger drains
 // via batch flushes. Caps buf growth at concurrent_put_rate × interval,
@@ -635,9 +640,13 @@ func (s *ResettableKeystore) handleResetOp(op resetOp) {
 	// (writes that arrived between Phase C's takeBuf and opCleanup).
 	// withAltDs keeps the altDs serialisation invariant uniform: every
 	// altDs write goes through the altDsBusy token.
+	// abortErr is reported back to ResetCids when a reset that was successful
+	// so far cannot be completed, so that the caller is not told it succeeded.
+	var abortErr error
 	if op.success {
 		if err := s.withAltDs(ctx, func() error { return s.drainBuf(ctx, s.altPutChecked) }); err != nil {
 			s.logger.Errorf("keystore: aborting swap, final buf drain failed: %v", err)
+			abortErr = fmt.Errorf("%w: final buf drain failed: %w", ErrResetAborted, err)
 			op.success = false
 		}
 	}
@@ -645,6 +654,7 @@ func (s *ResettableKeystore) handleResetOp(op resetOp) {
 		// Durability boundary: altDs must be on disk before the marker flips.
 		if err := s.withAltDs(ctx, func() error { return s.altDs.Sync(ctx, ds.NewKey("")) }); err != nil {
 			s.logger.Errorf("keystore: aborting swap, altDs sync failed: %v", err)
+			abortErr = fmt.Errorf("%w: altDs sync failed: %w", ErrResetAborted, err)
 			op.success = false
 		}
 	}
@@ -675,7 +685,12 @@ func (s *ResettableKeystore) handleResetOp(op resetOp) {
 	// alt on failure).
 	s.resetInProgress = false
 	s.buf = nil
-	op.response <- s.teardownAltDs(ctx)
+	teardownErr := s.teardownAltDs(ctx)
+	if abortErr != nil {
+		op.response <- errors.Join(abortErr, teardownErr)
+		return
+	}
+	op.response <- teardownErr
 }
 
 // ResetCids atomically replaces all stored keys with the CIDs received from
@@ -698,7 +713,7 @@ func (s *ResettableKeystore) handleResetOp(op resetOp) {
 // Returns ErrResetInProgress if another reset operation is already running.
 // The operation can be cancelled via context, which will clean up partial
 // state.
-func (s *ResettableKeystore) ResetCids(ctx context.Context, keysChan <-chan cid.Cid) error {
+func (s *ResettableKeystore) ResetCids(ctx context.Context, keysChan <-chan cid.Cid) (err error) {
 	if keysChan == nil {
 		return nil
 	}
@@ -758,7 +773,12 @@ func (s *ResettableKeystore) ResetCids(ctx context.Context, keysChan <-chan cid.
 		// Cleanup before returning on success and failure.
 		select {
 		case s.resetOps <- resetOp{ctx: ctx, op: opCleanup, success: success, response: opsChan}:
-			<-opsChan
+			// A reset that wrote all its keys can still be aborted by the
+			// worker (final drain or sync failed): report it instead of nil.
+			if cleanupErr := <-opsChan; success && errors.Is(cleanupErr, ErrResetAborted) {
+				success = false
+				err = cleanupErr
+			}
 		case <-s.done:
 			// Worker is done; underlying datastore may already be closed,
 			// so we cannot run the swap. Close() handles altDs teardown.
